@@ -429,7 +429,13 @@ func checkC16(w *World) {
 		}
 		pushes, pops := 0, 0
 		var ret *ssa.Return
-		for _, b := range armBlocks(ifi) {
+		// the arm is read through the parts it calls, each with the constants this arm passes
+		av := scope.armView(ifi)
+		isOwn := map[*ssa.BasicBlock]bool{}
+		for _, b := range av.own {
+			isOwn[b] = true
+		}
+		for _, b := range av.blocks {
 			for _, in := range b.Instrs {
 				switch x := in.(type) {
 				case *ssa.Call:
@@ -438,7 +444,7 @@ func checkC16(w *World) {
 						case "push":
 							pushes++
 							if len(x.Call.Args) == 2 {
-								if k, ok := constInt(x.Call.Args[1]); ok {
+								if k, ok := constInt(av.resolve(x.Call.Args[1])); ok {
 									pushedStates[d] = k
 								}
 							}
@@ -447,7 +453,7 @@ func checkC16(w *World) {
 						}
 					}
 				case *ssa.Return:
-					if ret == nil {
+					if ret == nil && isOwn[b] {
 						ret = x
 					}
 				}
@@ -470,13 +476,20 @@ func checkC16(w *World) {
 		}
 		if want, opening := names[d]; opening {
 			got := ""
-			if mi, ok := retNode.(*ssa.MakeInterface); ok {
-				backSlice(mi.X, func(v ssa.Value) bool {
-					if s, ok := constString(v); ok && strings.HasPrefix(s, "#") {
-						got = s
-					}
-					return true
-				})
+			for i, rv := range av.returned(retNode) {
+				g := ""
+				if mi, ok := rv.(*ssa.MakeInterface); ok {
+					backSlice(mi.X, func(v ssa.Value) bool {
+						if s, ok := constString(av.resolve(v)); ok && strings.HasPrefix(s, "#") {
+							g = s
+						}
+						return true
+					})
+				}
+				if i > 0 && g != got {
+					g = ""
+				}
+				got = g
 			}
 			ok := pushes == 1 && pops == 0 && endFlag == "false" && got == want
 			w.check(P, "R16.2", "delimiter "+d, ifPos(ifi), ok, fmt.Sprintf("pushes %d, pops %d, end flag %s, element name %q (required: one push, no pop, false, %q)", pushes, pops, endFlag, got, want))
@@ -632,6 +645,23 @@ func checkC16(w *World) {
 			}
 		}
 	})
+	// a part shared by several arms produces its node once per arm
+	for g, sites := range scope.merged() {
+		allInstrs(g, func(in ssa.Instruction) {
+			ret, ok := in.(*ssa.Return)
+			if !ok || len(ret.Results) == 0 {
+				return
+			}
+			if mi, ok := ret.Results[0].(*ssa.MakeInterface); ok {
+				for _, k := range []string{"Attribute", "CharData", "Element"} {
+					if w.implementsNode(mi.X.Type(), k) {
+						kinds[k] += len(sites)
+						break
+					}
+				}
+			}
+		})
+	}
 	var ks []string
 	for k, n := range kinds {
 		ks = append(ks, fmt.Sprintf("%s:%d", k, n))
@@ -647,7 +677,7 @@ func checkC16(w *World) {
 			}
 		})
 	}
-	w.check(P, "R16.3", "node kinds produced", pull.Pos(), kinds["CharData"] >= 2 && kinds["Element"] >= 3 && kinds["Attribute"] == 0 && spaceConst, fmt.Sprintf("returns %v; element namespace is the constant \"\": %v", ks, spaceConst))
+	w.check(P, "R16.3", "node kinds produced", pull.Pos(), kinds["CharData"] >= 1 && kinds["Element"] >= 3 && kinds["Attribute"] == 0 && spaceConst, fmt.Sprintf("returns %v; element namespace is the constant \"\": %v", ks, spaceConst))
 	// numbers must arrive as float64 (UseNumber would hand the literal spelling through the json.Number arm)
 	useNumber := false
 	w.forAllFuncs("parser", func(fn *ssa.Function) {
